@@ -120,7 +120,10 @@ func AssertKF(c bool, label string, kf string, pred bool) {
 
 func KnownActive(id string) bool { load(); return rf.Known[id] }
 
-func Reach(label string)         { Reached = append(Reached, label) }
+func Reach(label string) {
+	Reached = append(Reached, label)
+	fmt.Printf("VH-REACHED %s\n", label)
+}
 func MustReach(labels ...string) {}
 func MapOrderAny()               {}
 func AllocCap(n int)             {}
